@@ -23,7 +23,9 @@ TRUSTED = ['modelled, not verified: str.upper on ASCII method names (a non-ASCII
            'the path part of resolve is the C01 model (model/Router.v get)']
 ASSUMPTIONS = ['method names are ASCII']
 
-VERBS = ['GET', 'HEAD', 'POST', 'PUT', 'DELETE', 'PATCH', 'OPTIONS', 'ANY', 'BREW', 'get', 'Head']
+VERBS = ['GET', 'HEAD', 'POST', 'PUT', 'DELETE', 'PATCH', 'OPTIONS', 'ANY', 'BREW', 'get', 'Head',
+         'LOCK', 'UNLOCK', 'LINK', 'UNLINK', 'BIND', 'UNBIND', 'REBIND']
+CONTAINED = ['LOCK', 'UNLOCK', 'LINK', 'UNLINK', 'BIND', 'UNBIND', 'REBIND']      # verb names that contain each other
 RULES = [('/s', '/s', '/t'), ('/w/<x>', '/w/7', '/w'), ('/a/b', '/a/b/', '/a')]
 
 
@@ -65,6 +67,12 @@ def corpus():
                    + _probe_all(['/s'], ['GET', 'POST', 'PUT', 'BREW'])
                    + [dict(op='call_route', rule='/s', verb=v) for v in ('get', 'GET', 'PUT')]
                    + [dict(op='call_route', rule='/t', verb='GET'), dict(op='by_rule', rule='/s', form='dict')]))
+    # verb names that contain each other: removing UNLOCK (as a str, and through its RouteMethod) leaves LOCK alone
+    cs.append(dict(cmds=[dict(op='add', rule='/s', methods=['LOCK', 'UNLOCK', 'LINK', 'UNLINK', 'BIND', 'UNBIND', 'REBIND'], h=1),
+                         dict(op='remove_method', rule='/s', methods='UNLOCK')] + _probe_all(['/s'], ['LOCK', 'UNLOCK', 'BREW'])
+                   + [dict(op='remove_via', rule='/s', verb='UNLINK')] + _probe_all(['/s'], ['LINK', 'UNLINK', 'BREW'])
+                   + [dict(op='remove_method', rule='/s', methods='REBIND'), dict(op='remove_via', rule='/s', verb='UNBIND', path='/s')]
+                   + _probe_all(['/s'], ['BIND', 'UNBIND', 'REBIND', 'BREW']) + [dict(op='by_rule', rule='/s')]))
     # HEAD registered explicitly wins over GET
     cs.append(dict(cmds=[dict(op='add', rule='/s', methods=['GET'], h=1), dict(op='add', rule='/s', methods=['HEAD'], h=2)]
                    + _probe_all(['/s'])))
@@ -75,7 +83,8 @@ def _history(rng, rule, h0):
     cmds = []
     for k in range(rng.randrange(1, 7)):
         r = rng.random()
-        ms = rng.sample(['GET', 'HEAD', 'POST', 'PUT', 'ANY', 'DELETE'], rng.randrange(1, 4))
+        pool = ['GET', 'HEAD', 'POST', 'PUT', 'ANY', 'DELETE'] if rng.random() < 0.7 else CONTAINED
+        ms = rng.sample(pool, rng.randrange(1, 4))
         ms = [m.lower() if rng.random() < 0.2 else (m.capitalize() if rng.random() < 0.1 else m) for m in ms]
         if r < 0.42:
             cmds.append(L.vary_add(rng, dict(op='add', rule=rule, methods=ms, h=h0 + k)))
@@ -86,7 +95,8 @@ def _history(rng, rule, h0):
             cmds.append(dict(op='route_method', rule=rule, methods=ms if rng.random() < 0.7 else ms[0], h=h0 + k,
                              overwrite=rng.random() < 0.5))
         elif r < 0.85:
-            cmds.append(dict(op='remove_method', rule=rule, methods=ms))
+            # a list of verbs, or ONE verb as a plain str
+            cmds.append(dict(op='remove_method', rule=rule, methods=ms if rng.random() < 0.5 else ms[0]))
         else:
             # removal through the RouteMethod object of ONE verb (route[verb].remove() / resolve(...)[0][0].remove())
             hit = next(h for ru, h, _m in RULES if ru == rule)
@@ -206,7 +216,7 @@ def oracle(case, obs):
         elif c['op'] == 'remove_method':
             t = tables.get(c['rule'])
             if t is not None:
-                for m in c['methods']:
+                for m in (c['methods'] if isinstance(c['methods'], list) else [c['methods']]):
                     t.pop(m, None)
         elif c['op'] == 'remove_via':
             t = tables.get(c['rule'])
